@@ -270,6 +270,27 @@ func runTopology(rec *mon.Recorder, c int) {
 		}
 	}
 
+	// phase 2c: a node's answer breaks off in the middle (the connection is lost after a few items) and the node is
+	// reachable again at once: the search fails loudly, or whatever it returns is exactly the k best, each item once
+	for s := 0; s < 8 && nodes > 1 && rec.Violations() == 0; s++ {
+		victim := cl.Nodes[rng.Intn(nodes)]
+		victim.SetFault("SearchPartitions", sim.RPCFault{CutAfter: 1 + rng.Intn(3), CutOnce: true})
+		via := cl.Nodes[rng.Intn(nodes)]
+		q, k := newQuery(), uint(len(ref)+3)
+		sctx, cancel := context.WithTimeout(ctx, 5*time.Second)
+		res, err := via.Dataset(dsId).Search(sctx, q, k)
+		cancel()
+		victim.ClearFaults()
+		rec.Count("searches_with_an_answer_cut_in_the_middle", 1)
+		if err != nil {
+			rec.Count("searches_with_an_answer_cut_in_the_middle_failed_loudly", 1)
+			continue
+		}
+		if !checkResult(outcome{q, k, res, err}, "answer-cut-in-the-middle") {
+			break
+		}
+		checked++
+	}
 	// phase 2b: a node fails just as another node's answer completes. The collector is then busy with that answer
 	// (not parked waiting), which is the moment at which a worker that says more or less than "one message per
 	// node" is not noticed. The victim's failure is gated on the completion of another node's handler for the
